@@ -2,6 +2,10 @@
 """seedmatrix.py [ids...] - run every confirmed seeded change in /verif/seeded against the check of its property
 (quick tier), record in its meta.json which clauses reported it, and print a table."""
 import json, os, re, subprocess, sys, glob
+# works on copies so that /repo and /verif stay usable meanwhile: a worktree of /repo's HEAD and one of /verif's HEAD
+MR, MV = '/tmp/mx/repo', '/tmp/mx/verif'
+subprocess.run(f"mkdir -p /tmp/mx; git -C /repo worktree remove --force {MR}; git -C /repo worktree add -f --detach {MR} HEAD; git -C /verif worktree remove --force {MV}; git -C /verif worktree add -f --detach {MV} HEAD", shell=True, capture_output=True)
+ENV = dict(os.environ, VERIF_HOME=MV, VERIF_REPO=MR)
 want = sys.argv[1:]
 rows = []
 for d in sorted(glob.glob('/verif/seeded/*/')):
@@ -14,16 +18,18 @@ for d in sorted(glob.glob('/verif/seeded/*/')):
     chk = meta.get('checks', [prop])
     res = {}
     for c in chk:
-        ok = subprocess.run(f"git -C /repo apply --check {patch} 2>/dev/null || git -C /repo apply -3 --check {patch}", shell=True, capture_output=True).returncode == 0
+        ok = subprocess.run(f"git -C {MR} apply --check {patch} 2>/dev/null || git -C {MR} apply -3 --check {patch}", shell=True, capture_output=True).returncode == 0
         if not ok:
             res[c] = {'applies': False}
             continue
-        subprocess.run(f"git -C /repo apply {patch} 2>/dev/null || git -C /repo apply -3 {patch}", shell=True, capture_output=True)
-        p = subprocess.run(f"/verif/check {c} quick", shell=True, capture_output=True, text=True, errors='replace')
-        subprocess.run("git -C /repo checkout -- . ; git -C /repo reset -q", shell=True)
+        subprocess.run(f"git -C {MR} apply {patch} 2>/dev/null || git -C {MR} apply -3 {patch}", shell=True, capture_output=True)
+        p = subprocess.run(f"{MV}/check {c} quick", shell=True, capture_output=True, text=True, errors='replace', env=ENV)
+        subprocess.run(f"git -C {MR} checkout -- . ; git -C {MR} reset -q", shell=True)
         clauses = sorted(set(re.findall(r"clause=(\S+)", p.stdout)))
         res[c] = {'applies': True, 'exit': p.returncode, 'violations': len(re.findall(r"^VIOLATION", p.stdout, re.M)), 'clauses': clauses}
     meta['detected_by'] = res
     json.dump(meta, open(d + 'meta.json', 'w'), indent=1)
     rows.append((name, res))
     print(name, json.dumps(res), flush=True)
+
+subprocess.run(f"git -C /repo worktree remove --force {MR}; git -C /verif worktree remove --force {MV}", shell=True, capture_output=True)
